@@ -582,6 +582,32 @@ func (pk *pkg) scanFunc(fd *ast.FuncDecl, imports map[string]*pkg, res *scanResu
 		}
 		return "none"
 	}
+	// struct types declared inside the function body may have fields named like a shared field: for those names only
+	// selectors on the receiver / a parameter count as the shared field
+	localFieldNames := map[string]bool{}
+	ast.Inspect(fd.Body, func(n ast.Node) bool {
+		if ts, ok := n.(*ast.TypeSpec); ok {
+			if st, ok := ts.Type.(*ast.StructType); ok {
+				for _, fl := range st.Fields.List {
+					for _, nm := range fl.Names {
+						localFieldNames[nm.Name] = true
+					}
+				}
+			}
+		}
+		return true
+	})
+	isSharedFieldSel := func(se *ast.SelectorExpr) bool {
+		if !localFieldNames[se.Sel.Name] {
+			return true
+		}
+		id, ok := se.X.(*ast.Ident)
+		if !ok || id.Obj == nil {
+			return true
+		}
+		_, isField := id.Obj.Decl.(*ast.Field) // receiver or parameter
+		return isField
+	}
 	// pkgVarOf: the expression denotes a package-level variable (of this package, or pkg.X of an imported library
 	// package): returns its location name and kind
 	pkgVarOf := func(e ast.Expr) (string, string, *pkg, string) {
@@ -606,7 +632,7 @@ func (pk *pkg) scanFunc(fd *ast.FuncDecl, imports map[string]*pkg, res *scanResu
 		if l, k, tp, nm := pkgVarOf(e); l != "" {
 			return l, k, tp.refElem[nm]
 		}
-		if se, ok := e.(*ast.SelectorExpr); ok {
+		if se, ok := e.(*ast.SelectorExpr); ok && isSharedFieldSel(se) {
 			if k := pk.fieldKind[se.Sel.Name]; k != "" {
 				return pk.locName(se.Sel.Name), k, pk.refElem[se.Sel.Name]
 			}
@@ -874,7 +900,7 @@ func (pk *pkg) scanFunc(fd *ast.FuncDecl, imports map[string]*pkg, res *scanResu
 						rows = append(rows, access{fn, pk.locName(t.Sel.Name), false, s})
 					}
 				}
-				if k := pk.fieldKind[t.Sel.Name]; k != "" && !writes[t] {
+				if k := pk.fieldKind[t.Sel.Name]; k != "" && !writes[t] && isSharedFieldSel(t) {
 					if loc, _, _, _ := pkgVarOf(t); loc == "" {
 						rows = append(rows, access{fn, pk.locName(t.Sel.Name), false, syncNow()})
 						writes[t] = true
